@@ -855,6 +855,23 @@ impl Engine for Once {
                 }
             }
         }
+        // cosmetic: with an empty schedule task ids do not matter — drop empty programs; drop
+        // supplier entries no program mentions
+        if c.sched.is_empty() && c.progs.iter().any(|p| p.is_empty()) && c.progs.iter().any(|p| !p.is_empty()) {
+            let mut d = c.clone();
+            d.progs.retain(|p| !p.is_empty());
+            if still_fails(&render(&d)) {
+                c = d;
+            }
+        }
+        let used: BTreeSet<u64> = c.progs.iter().flatten().map(|(k, _)| *k).collect();
+        if used.len() < c.sup.len() && !used.is_empty() {
+            let mut d = c.clone();
+            d.sup.retain(|k, _| used.contains(k));
+            if still_fails(&render(&d)) {
+                c = d;
+            }
+        }
         render(&c)
     }
 }
